@@ -24,35 +24,50 @@ void TetrisLegalizer::run() {
 }
 
 std::pair<bool, int> TetrisLegalizer::attemptPlacement(int cell, int y) const {
-  CellOrientation orient = getOrientation(cell, closestRow(y));
-  if (orient == CellOrientation::INVALID) {
-    // Incompatible due to row orientation
-    return std::make_pair(false, 0);
-  }
-  // Need to handle non-classical orientation: the given width and height are
-  // the placed dimensions for the target orientation
-  int width = cellWidth_[cell];
-  int height = cellHeight_[cell];
-  if (isTurn(orient) != isTurn(cellTargetOrientation_[cell])) {
-    std::swap(width, height);
-  }
-  auto p = getPossibleIntervals(width, height, y);
-  if (p.empty()) {
-    // Incompatible due to obstructions or placed cells
-    return std::make_pair(false, 0);
-  }
-  // Find the closest available interval
+  // Find the closest available position; row segments at the same y may have
+  // different orientations, so each one is considered with its own
   int x = cellTargetX_[cell];
   int dest = 0;
   bool found = false;
-  for (auto [b, e] : p) {
-    int pos = std::clamp(x, b, e);
-    if (!found || std::abs(pos - x) < std::abs(dest - x)) {
-      dest = pos;
-      found = true;
+  for (int r = closestRow(y); r < nbRows() && rows_[r].minY == y; ++r) {
+    CellOrientation orient = getOrientation(cell, r);
+    if (orient == CellOrientation::INVALID) {
+      // Incompatible due to row orientation
+      continue;
+    }
+    // Need to handle non-classical orientation: the given width and height are
+    // the placed dimensions for the target orientation
+    int width = cellWidth_[cell];
+    int height = cellHeight_[cell];
+    if (isTurn(orient) != isTurn(cellTargetOrientation_[cell])) {
+      std::swap(width, height);
+    }
+    for (auto [b, e] : getPossibleIntervals(width, height, y)) {
+      // Only keep the positions where the cell sits on this row segment
+      b = std::max(b, rowFreePos_[r]);
+      e = std::min(e, rows_[r].maxX - width);
+      if (b > e) {
+        // Incompatible due to obstructions or placed cells
+        continue;
+      }
+      int pos = std::clamp(x, b, e);
+      if (!found || std::abs(pos - x) < std::abs(dest - x)) {
+        dest = pos;
+        found = true;
+      }
     }
   }
-  return std::make_pair(true, dest);
+  return std::make_pair(found, dest);
+}
+
+int TetrisLegalizer::rowAt(int x, int y) const {
+  int first = closestRow(y);
+  for (int r = first; r < nbRows() && rows_[r].minY == y; ++r) {
+    if (rows_[r].minX <= x && x < rows_[r].maxX) {
+      return r;
+    }
+  }
+  return first;
 }
 
 void TetrisLegalizer::placeCell(int cell) {
@@ -107,7 +122,7 @@ void TetrisLegalizer::placeCell(int cell) {
   }
   cellToX_[cell] = bestX;
   cellToY_[cell] = bestY;
-  cellToOrientation_[cell] = getOrientation(cell, closestRow(bestY));
+  cellToOrientation_[cell] = getOrientation(cell, rowAt(bestX, bestY));
   cellIsPlaced_[cell] = true;
   // Need to handle non-classical orientation: the given width and height are
   // the placed dimensions for the target orientation
